@@ -3,6 +3,7 @@ C06 — saving is deterministic and idempotent.
 -/
 import ElfioVerif.Lemmas.Save
 import ElfioVerif.Props.C03
+set_option linter.unusedSimpArgs false
 namespace ElfioVerif.C06
 open Gen
 
@@ -271,5 +272,519 @@ example : (match nosegObj with
     | .ok o => o.segs.isEmpty && (match o.hdr with | some hd => decide (ehdrSize o.cls ≤ hd.length) | none => false) &&
         (match save o {} with | .ok r => r.ok | .error _ => false)
     | .error _ => false) = true := by decide +kernel
+
+/-! ### saving twice: objects with segments -/
+
+/-- the F13 trigger, per member: a member without address that occupies no file space (NOBITS, or
+    empty) is placed behind a *non-zero* alignment gap -/
+def GapBeforeAddresslessNobits (sec : SecBuf) (pos : BitVec 64) : Prop :=
+  sec.addrSet = false ∧ (sec.stype = BitVec.ofNat 32 SHT_NOBITS ∨ sec.size = 0) ∧
+  wsd_gap_align (if wsd_align_zero sec.addrAlign then 1 else sec.addrAlign)
+    (wsd_error pos (if wsd_align_zero sec.addrAlign then 1 else sec.addrAlign)) ≠ 0
+
+theorem occupies_iff (sec : SecBuf) (hnn : wsd_is_null sec.stype = false) (generated addrSet : Bool) :
+    wsd_addr_branch generated addrSet sec.stype sec.size =
+      (!generated && addrSet && decide (sec.stype ≠ BitVec.ofNat 32 SHT_NOBITS) && decide (sec.size ≠ 0)) := by
+  have h2 : (BitVec.ofNat 32 SHT_NULL != sec.stype) = true := by
+    simp only [wsd_is_null, beq_eq_false_iff_ne, ne_eq] at hnn
+    simp only [bne_iff_ne, ne_eq]; exact hnn
+  unfold wsd_addr_branch
+  rw [h2, Bool.and_true]
+  congr 1
+  · congr 1
+    by_cases h : sec.stype = BitVec.ofNat 32 SHT_NOBITS
+    · simp [h]
+    · have : BitVec.ofNat 32 SHT_NOBITS ≠ sec.stype := fun e => h e.symm
+      simp [h, this]
+  · by_cases h : sec.size = 0
+    · simp [h]
+    · have h' : ¬ sec.size = 0#64 := h
+      have : ¬ (0#64 = sec.size) := fun e => h e.symm
+      simp [h', this]
+
+/-- **re-running the placing step on its own result** (ELF64): if `write_segment_data` placed a
+    not-yet-generated member `sec` from cursor `pos`, producing `sec'`, then running the step again
+    from the same cursor on `sec'` produces exactly the same outcome — the address-driven branch
+    recomputes the gap the alignment-driven branch chose — or aborts (only if the offsets wrapped
+    around 2^64), **provided** the member is not an address-less NOBITS/empty section behind a non-zero
+    alignment gap.  In that excluded case the second run takes no gap at all: F13. -/
+theorem stepCore_resave {g : Seg} {ss : BitVec 64} {sec sec' : SecBuf} {pos pos2 mem file mem' file' : BitVec 64}
+    (h : stepCore .c64 g ss sec false pos mem file = .placed sec' pos2 mem' file')
+    (hng : ¬ GapBeforeAddresslessNobits sec pos) :
+    stepCore .c64 g ss sec' false pos mem file = .placed sec' pos2 mem' file' ∨
+    stepCore .c64 g ss sec' false pos mem file = .abort := by
+  unfold stepCore at h
+  by_cases hnn : wsd_is_null sec.stype = true
+  · rw [if_pos hnn] at h; cases h
+  · rw [if_neg hnn] at h
+    have hnn' : wsd_is_null sec.stype = false := by simpa using hnn
+    cases hgap : stepGap g ss sec false pos file with
+    | none => rw [hgap] at h; cases h
+    | some gap =>
+      rw [hgap] at h
+      simp only [Bool.false_eq_true, if_false] at h
+      injection h with e1 e2 e3 e4
+      -- the placed section
+      rw [stepPlace_eq] at e1
+      have hst : sec'.stype = sec.stype := by rw [← e1]
+      have hsz : sec'.size = sec.size := by rw [← e1]
+      have hfl : sec'.flags = sec.flags := by rw [← e1]
+      have hset' : sec'.addrSet = true := by rw [← e1]
+      have hidx' : sec'.index = sec.index := by rw [← e1]
+      have hoff' : sec'.offset = if (sec.index != 0) = true then truncA .c64 (wsd_cursor_gap pos gap) else sec.offset := by
+        rw [← e1]
+      have hidem : stepPlace .c64 g ss sec' (wsd_cursor_gap pos gap) = sec' := by
+        rw [stepPlace_eq]
+        have h1 : (if sec'.addrSet = true then sec'.addr
+            else truncA .c64 (wsd_new_addr g.vaddr (wsd_cursor_gap pos gap) ss)) = sec'.addr := by
+          rw [hset']; rfl
+        have h2 : (if (sec'.index != 0) = true then truncA .c64 (wsd_cursor_gap pos gap) else sec'.offset) =
+            sec'.offset := by
+          rw [hidx', hoff']; split <;> rfl
+        rw [h1, h2]
+        clear h1 h2 hoff' hidx' hfl hsz hst e1
+        cases sec'
+        simp only at hset'
+        subst hset'
+        rfl
+      -- the second run's gap
+      have key : stepGap g ss sec' false pos file = some gap ∨ stepGap g ss sec' false pos file = none := by
+        unfold stepGap at hgap ⊢
+        rw [occupies_iff sec hnn'] at hgap
+        rw [occupies_iff sec' (by rw [hst]; exact hnn'), hset', hst, hsz]
+        simp only [Bool.not_false, Bool.true_and] at hgap ⊢
+        cases ha : sec.addrSet with
+        | true =>
+          rw [ha] at hgap
+          have ead : sec'.addr = sec.addr := by rw [← e1]; simp only [ha, if_true]
+          rw [ead]
+          simp only [Bool.true_and] at hgap
+          by_cases hocc : (decide (sec.stype ≠ BitVec.ofNat 32 SHT_NOBITS) && decide (sec.size ≠ 0)) = true
+          · rw [if_pos hocc] at hgap ⊢
+            exact Or.inl hgap
+          · rw [if_neg hocc] at hgap ⊢
+            simp only [wsd_align_branch, ha, Bool.not_false, Bool.not_true, Bool.and_false, Bool.false_eq_true,
+              if_false, Bool.true_and] at hgap ⊢
+            exact Or.inl hgap
+        | false =>
+          rw [ha] at hgap
+          simp only [Bool.false_and, Bool.false_eq_true, if_false, wsd_align_branch, Bool.not_false, Bool.and_true,
+            if_true, Option.some.injEq] at hgap
+          by_cases hocc : (decide (sec.stype ≠ BitVec.ofNat 32 SHT_NOBITS) && decide (sec.size ≠ 0)) = true
+          · rw [if_pos hocc]
+            -- address-driven branch on the address the first run computed
+            have ead : sec'.addr = wsd_new_addr g.vaddr (wsd_cursor_gap pos gap) ss := by
+              rw [← e1]; simp only [ha, Bool.false_eq_true, if_false, truncA]
+            rw [ead]
+            by_cases hlt : wsd_req_lt_cur (wsd_req_offset (wsd_new_addr g.vaddr (wsd_cursor_gap pos gap) ss) g.vaddr)
+                (wsd_cur_offset pos ss) = true
+            · rw [if_pos hlt]; exact Or.inr rfl
+            · rw [if_neg hlt]
+              left
+              congr 1
+              simp only [wsd_gap_addr, wsd_req_offset, wsd_new_addr, wsd_cursor_gap, wsd_cur_offset]
+              bv_omega
+          · rw [if_neg hocc]
+            simp only [wsd_align_branch, Bool.not_false, Bool.not_true, Bool.and_false, Bool.false_eq_true, if_false]
+            left
+            -- no file space: the first gap must have been zero
+            have hz : gap = 0 := by
+              apply Classical.byContradiction
+              intro hne
+              apply hng
+              refine ⟨ha, ?_, by rw [hgap]; exact hne⟩
+              simp only [Bool.and_eq_true, decide_eq_true_eq, not_and, Decidable.not_not] at hocc
+              by_cases h1 : sec.stype = BitVec.ofNat 32 SHT_NOBITS
+              · exact Or.inl h1
+              · exact Or.inr (hocc h1)
+            rw [hz]
+      unfold stepCore
+      rw [hst, if_neg hnn]
+      rcases key with k | k
+      · left
+        rw [k]
+        simp only [Bool.false_eq_true, if_false, hst, hsz, hfl, hidem, e2, e3, e4]
+      · right
+        rw [k]
+
+theorem stepCore_congr_seg {c : Cls} {g g' : Seg} (hv : g'.vaddr = g.vaddr) (ht : g'.stype = g.stype)
+    (ss : BitVec 64) (sec : SecBuf) (gen : Bool) (pos mem file : BitVec 64) :
+    stepCore c g' ss sec gen pos mem file = stepCore c g ss sec gen pos mem file := by
+  unfold stepCore stepGap stepPlace
+  rw [hv, ht]
+
+/-- run 2 is in step with run 1: it works on the final sections `F`, with the same cursor, flags
+    and counters -/
+structure Lock (F : List SecBuf) (s1 s2 : WsdSt) : Prop where
+  secs : s2.lay.secs = F
+  pos : s2.lay.pos = s1.lay.pos
+  gen : s2.lay.gen = s1.lay.gen
+  mem : s2.mem = s1.mem
+  file : s2.file = s1.file
+
+/-- sections that are generated already have their final form -/
+def Fut (F : List SecBuf) (st : WsdSt) : Prop :=
+  F.length = st.lay.secs.length ∧ ∀ (i : Nat), st.lay.gen[i]? = some true → F[i]? = st.lay.secs[i]?
+
+/-- no member meets the F13 trigger when it is placed -/
+def StepOk (st : WsdSt) (idx : BitVec 16) : Prop :=
+  ∀ sec, st.lay.secs[idx.toNat]? = some sec → st.lay.gen[idx.toNat]? = some false →
+    ¬ GapBeforeAddresslessNobits sec st.lay.pos
+
+def LoopOk (c : Cls) (g : Seg) (ss : BitVec 64) : List (BitVec 16) → WsdSt → Prop
+  | [], _ => True
+  | idx :: rest, st => StepOk st idx ∧ ∀ st', wsdStep c g ss st idx = .ok (some st') → LoopOk c g ss rest st'
+
+theorem applyOut_length {st st' : WsdSt} {i : Nat} {out : StepOut} (h : applyOut st i out = some st') :
+    st'.lay.secs.length = st.lay.secs.length ∧ st'.lay.gen.length = st.lay.gen.length := by
+  cases out <;> simp only [applyOut, Option.some.injEq] at h
+  · cases h
+  · subst h; exact ⟨rfl, List.length_set⟩
+  · subst h; exact ⟨rfl, rfl⟩
+  · subst h; exact ⟨List.length_set, List.length_set⟩
+
+theorem wsdLoop_length {c : Cls} {g : Seg} {ss : BitVec 64} (l : List (BitVec 16)) {st st' : WsdSt}
+    (h : wsdLoop c g ss l st = .ok (some st')) : st'.lay.secs.length = st.lay.secs.length :=
+  ((wsdLoop_frame l h).1).1
+
+theorem set_eq_self_of_getElem? {α} {l : List α} {i : Nat} {x : α} (h : l[i]? = some x) : l.set i x = l := by
+  apply List.ext_getElem?
+  intro j
+  rw [List.getElem?_set]
+  split
+  · rename_i e; subst e
+    split
+    · exact h.symm
+    · rename_i hlt; rw [List.getElem?_eq_none (by omega)] at h; cases h
+  · rfl
+
+/-- **one member, in step** -/
+theorem wsdStep_resave {g g' : Seg} {ss : BitVec 64} {F : List SecBuf} {st1 st1' st2 st2' : WsdSt} {idx : BitVec 16}
+    (hv : g'.vaddr = g.vaddr) (ht : g'.stype = g.stype)
+    (h1 : wsdStep .c64 g ss st1 idx = .ok (some st1')) (hF : Fut F st1') (hok : StepOk st1 idx)
+    (hl : Lock F st1 st2) (h2 : wsdStep .c64 g' ss st2 idx = .ok (some st2')) : Lock F st1' st2' := by
+  obtain ⟨sec1, gen1, hs1, hg1, ha1⟩ := wsdStep_ok h1
+  obtain ⟨sec2, gen2, hs2, hg2, ha2⟩ := wsdStep_ok h2
+  rw [hl.secs] at hs2
+  rw [hl.gen, hg1] at hg2
+  simp only [Option.some.injEq] at hg2
+  subst hg2
+  rw [hl.pos, hl.mem, hl.file, stepCore_congr_seg hv ht] at ha2
+  obtain ⟨len1, _⟩ := applyOut_length ha1
+  have hi : idx.toNat < st1.lay.secs.length := by
+    rcases Nat.lt_or_ge idx.toNat st1.lay.secs.length with h | h
+    · exact h
+    · rw [List.getElem?_eq_none h] at hs1; cases hs1
+  have hgi : idx.toNat < st1.lay.gen.length := by
+    rcases Nat.lt_or_ge idx.toNat st1.lay.gen.length with h | h
+    · exact h
+    · rw [List.getElem?_eq_none h] at hg1; cases hg1
+  cases gen1 with
+  | true =>
+    -- already generated: the section has its final form, the outcome is identical
+    have hgen' := (wsdStep_stable h1 idx.toNat hg1)
+    have : F[idx.toNat]? = st1.lay.secs[idx.toNat]? := by rw [hF.2 _ hgen'.2, hgen'.1]
+    rw [this, hs1] at hs2
+    simp only [Option.some.injEq] at hs2
+    subst hs2
+    cases ho : stepCore .c64 g ss sec1 true st1.lay.pos st1.mem st1.file with
+    | abort => rw [ho] at ha1; cases ha1
+    | null =>
+      rw [ho] at ha1 ha2; simp only [applyOut, Option.some.injEq] at ha1 ha2; subst ha1; subst ha2
+      exact ⟨hl.secs, hl.pos, by simp only; rw [hl.gen], hl.mem, hl.file⟩
+    | counted m f =>
+      rw [ho] at ha1 ha2; simp only [applyOut, Option.some.injEq] at ha1 ha2; subst ha1; subst ha2
+      exact ⟨hl.secs, hl.pos, hl.gen, rfl, rfl⟩
+    | placed s p m f => exact absurd ho (stepCore_true_not_placed _ _ _ _ _ _ _ _ _ _ _)
+  | false =>
+    cases ho : stepCore .c64 g ss sec1 false st1.lay.pos st1.mem st1.file with
+    | abort => rw [ho] at ha1; cases ha1
+    | counted m f => exact absurd ho (stepCore_false_not_counted _ _ _ _ _ _ _ _ _)
+    | null =>
+      rw [ho] at ha1; simp only [applyOut, Option.some.injEq] at ha1; subst ha1
+      -- the section is final already
+      have hgen' : (st1.lay.gen.set idx.toNat true)[idx.toNat]? = some true := List.getElem?_set_self hgi
+      have : F[idx.toNat]? = some sec1 := by rw [hF.2 _ hgen']; exact hs1
+      rw [this] at hs2
+      simp only [Option.some.injEq] at hs2
+      subst hs2
+      rw [ho] at ha2; simp only [applyOut, Option.some.injEq] at ha2; subst ha2
+      exact ⟨hl.secs, hl.pos, by simp only; rw [hl.gen], hl.mem, hl.file⟩
+    | placed s p m f =>
+      rw [ho] at ha1; simp only [applyOut, Option.some.injEq] at ha1; subst ha1
+      have hgen' : (st1.lay.gen.set idx.toNat true)[idx.toNat]? = some true := List.getElem?_set_self hgi
+      have hFi : F[idx.toNat]? = some s := by
+        rw [hF.2 _ hgen']; exact List.getElem?_set_self hi
+      rw [hFi] at hs2
+      simp only [Option.some.injEq] at hs2
+      subst hs2
+      rcases stepCore_resave ho (hok sec1 hs1 hg1) with h' | h'
+      · rw [h'] at ha2; simp only [applyOut, Option.some.injEq] at ha2; subst ha2
+        refine ⟨?_, rfl, by simp only; rw [hl.gen], rfl, rfl⟩
+        simp only
+        rw [hl.secs]
+        exact set_eq_self_of_getElem? hFi
+      · rw [h'] at ha2; cases ha2
+
+theorem Fut.back {c : Cls} {g : Seg} {ss : BitVec 64} {F : List SecBuf} (l : List (BitVec 16)) {st stE : WsdSt}
+    (h : wsdLoop c g ss l st = .ok (some stE)) (hF : Fut F stE) : Fut F st := by
+  refine ⟨hF.1.trans (wsdLoop_length l h), fun i hi => ?_⟩
+  obtain ⟨a, b⟩ := wsdLoop_stable l h i hi
+  rw [hF.2 i b, a]
+
+/-- **all members of a segment, in step** -/
+theorem wsdLoop_resave {g g' : Seg} {ss : BitVec 64} {F : List SecBuf} (hv : g'.vaddr = g.vaddr)
+    (ht : g'.stype = g.stype) (l : List (BitVec 16)) {st1 stE st2 st2E : WsdSt}
+    (h1 : wsdLoop .c64 g ss l st1 = .ok (some stE)) (hF : Fut F stE) (hok : LoopOk .c64 g ss l st1)
+    (hl : Lock F st1 st2) (h2 : wsdLoop .c64 g' ss l st2 = .ok (some st2E)) : Lock F stE st2E := by
+  induction l generalizing st1 st2 with
+  | nil =>
+    simp only [wsdLoop, pure, Except.pure, Except.ok.injEq, Option.some.injEq] at h1 h2
+    subst h1; subst h2; exact hl
+  | cons idx rest ih =>
+    simp only [wsdLoop, bind, Except.bind] at h1 h2
+    cases e1 : wsdStep .c64 g ss st1 idx with
+    | error x => rw [e1] at h1; cases h1
+    | ok r1 =>
+      rw [e1] at h1
+      cases r1 with
+      | none => cases h1
+      | some st1' =>
+        cases e2 : wsdStep .c64 g' ss st2 idx with
+        | error x => rw [e2] at h2; cases h2
+        | ok r2 =>
+          rw [e2] at h2
+          cases r2 with
+          | none => cases h2
+          | some st2' =>
+            simp only at h1 h2
+            have hF' : Fut F st1' := Fut.back rest h1 hF
+            have hl' := wsdStep_resave hv ht e1 hF' hok.1 hl e2
+            exact ih h1 (hok.2 st1' e1) hl' h2
+
+/-- layouts in step -/
+structure LockL (F : List SecBuf) (l1 l2 : Layout) : Prop where
+  secs : l2.secs = F
+  pos : l2.pos = l1.pos
+  gen : l2.gen = l1.gen
+
+def FutL (F : List SecBuf) (lay : Layout) : Prop :=
+  F.length = lay.secs.length ∧ ∀ (i : Nat), lay.gen[i]? = some true → F[i]? = lay.secs[i]?
+
+theorem segStartOf_resave {F : List SecBuf} {phoff : BitVec 64} {pe pn : BitVec 16} {lay1 lay2 : Layout} {g d : Seg}
+    {p1 : Layout × BitVec 64 × BitVec 64 × BitVec 64}
+    (hl : LockL F lay1 lay2) (hF : FutL F lay1) (h1 : segStartOf phoff pe pn lay1 g = .ok p1)
+    (dt : d.stype = g.stype) (dsecs : d.secs = g.secs) (dal : d.align = g.align) (dv : d.vaddr = g.vaddr)
+    (dset : d.offsetSet = true) (doff : d.offset = p1.2.1)
+    (hnz : lseg_is_phdr g.stype (BitVec.ofNat 16 g.secs.length) = false → lseg_offset0 g.offsetSet g.offset = false →
+      p1.2.1 ≠ 0) :
+    ∃ p2, segStartOf phoff pe pn lay2 d = .ok p2 ∧ p2.2 = p1.2 ∧ LockL F p1.1 p2.1 := by
+  unfold segStartOf at h1 ⊢
+  rw [dt, dsecs, dal, dv, dset, doff, hl.gen, hl.pos, hl.secs]
+  have hoff0 : ∀ x : BitVec 64, lseg_offset0 true x = (x == 0) := by
+    intro x; simp [lseg_offset0]
+  cases hh : g.secs.head? with
+  | none =>
+    rw [hh] at h1
+    simp only [pure_bind] at h1 ⊢
+    by_cases c1 : lseg_is_phdr g.stype (BitVec.ofNat 16 g.secs.length) = true
+    · simp only [c1, if_true, if_false, Bool.false_eq_true] at h1 ⊢
+      simp only [pure, Except.pure, Except.ok.injEq] at h1; subst h1
+      exact ⟨_, rfl, rfl, hl⟩
+    · simp only [c1, if_false, Bool.false_eq_true] at h1 ⊢
+      by_cases c2 : lseg_offset0 g.offsetSet g.offset = true
+      · simp only [c2, if_true, if_false, Bool.false_eq_true] at h1
+        simp only [pure, Except.pure, Except.ok.injEq] at h1; subst h1
+        simp only [hoff0, beq_self_eq_true, if_true]
+        exact ⟨_, rfl, rfl, hl⟩
+      · have hne := hnz (by simpa using c1) (by simpa using c2)
+        have c2' : lseg_offset0 true p1.2.1 = false := by
+          rw [hoff0]; simpa using hne
+        simp only [c2, if_false, Bool.false_eq_true] at h1
+        rw [c2']
+        simp only [Bool.false_eq_true, if_false]
+        by_cases c3 : (decide (g.secs.length > 0) && !false) = true
+        · simp only [c3, if_true, if_false, Bool.false_eq_true] at h1 ⊢
+          simp only [pure, Except.pure, Except.ok.injEq] at h1; subst h1
+          exact ⟨_, rfl, rfl, ⟨rfl, rfl, rfl⟩⟩
+        · simp only [c3, if_false, Bool.false_eq_true] at h1 ⊢
+          by_cases c4 : g.secs.length > 0
+          · simp only [c4, if_true, if_false, Bool.false_eq_true] at h1 ⊢
+            simp only [pure, Except.pure, Except.ok.injEq] at h1; subst h1
+            exact ⟨_, rfl, rfl, hl⟩
+          · simp only [c4, if_false, Bool.false_eq_true] at h1 ⊢
+            simp only [pure, Except.pure, Except.ok.injEq] at h1; subst h1
+            exact ⟨_, rfl, rfl, hl⟩
+  | some f =>
+    rw [hh] at h1
+    simp only at h1 ⊢
+    cases hg : lay1.gen[f.toNat]? with
+    | none => rw [hg] at h1; cases h1
+    | some b =>
+      rw [hg] at h1
+      simp only [pure_bind] at h1 ⊢
+      by_cases c1 : lseg_is_phdr g.stype (BitVec.ofNat 16 g.secs.length) = true
+      · simp only [c1, if_true, if_false, Bool.false_eq_true] at h1 ⊢
+        simp only [pure, Except.pure, Except.ok.injEq] at h1; subst h1
+        exact ⟨_, rfl, rfl, hl⟩
+      · simp only [c1, if_false, Bool.false_eq_true] at h1 ⊢
+        by_cases c2 : lseg_offset0 g.offsetSet g.offset = true
+        · simp only [c2, if_true, if_false, Bool.false_eq_true] at h1
+          simp only [pure, Except.pure, Except.ok.injEq] at h1; subst h1
+          simp only [hoff0, beq_self_eq_true, if_true]
+          exact ⟨_, rfl, rfl, hl⟩
+        · have hne := hnz (by simpa using c1) (by simpa using c2)
+          have c2' : lseg_offset0 true p1.2.1 = false := by
+            rw [hoff0]; simpa using hne
+          simp only [c2, if_false, Bool.false_eq_true] at h1
+          rw [c2']
+          simp only [Bool.false_eq_true, if_false]
+          by_cases c3 : (decide (g.secs.length > 0) && !b) = true
+          · simp only [c3, if_true, if_false, Bool.false_eq_true] at h1 ⊢
+            simp only [pure, Except.pure, Except.ok.injEq] at h1; subst h1
+            exact ⟨_, rfl, rfl, ⟨rfl, rfl, rfl⟩⟩
+          · simp only [c3, if_false, Bool.false_eq_true] at h1 ⊢
+            by_cases c4 : g.secs.length > 0
+            · simp only [c4, if_true, if_false, Bool.false_eq_true] at h1 ⊢
+              -- the first member is generated: its offset is final
+              have hb : b = true := by
+                simp only [c4, decide_true, Bool.true_and, Bool.not_eq_true', Bool.not_eq_false] at c3
+                simpa using c3
+              subst hb
+              have hFf : F[f.toNat]? = lay1.secs[f.toNat]? := hF.2 _ hg
+              rw [hFf]
+              cases hs : lay1.secs[f.toNat]? with
+              | none => rw [hs] at h1; cases h1
+              | some s0 =>
+                rw [hs] at h1
+                simp only [pure, Except.pure, Except.ok.injEq] at h1; subst h1
+                exact ⟨_, rfl, rfl, hl⟩
+            · simp only [c4, if_false, Bool.false_eq_true] at h1 ⊢
+              simp only [pure, Except.pure, Except.ok.injEq] at h1; subst h1
+              exact ⟨_, rfl, rfl, hl⟩
+
+theorem segFinish_fields (c : Cls) (g : Seg) (ss : BitVec 64) (st : WsdSt) :
+    (segFinish c g ss st).stype = g.stype ∧ (segFinish c g ss st).secs = g.secs ∧
+    (segFinish c g ss st).align = g.align ∧ (segFinish c g ss st).vaddr = g.vaddr ∧
+    (segFinish c g ss st).offsetSet = true ∧ (segFinish c g ss st).offset = truncA c ss ∧
+    (segFinish c g ss st).index = g.index := by
+  refine ⟨?_, ?_, ?_, ?_, ?_, ?_, ?_⟩ <;>
+    (by_cases h : lseg_memsz_lt g.memsz st.mem = true <;> simp [segFinish, h])
+
+theorem segFinish_idem (g : Seg) (ss : BitVec 64) (st st' : WsdSt) (hm : st'.mem = st.mem) (hf : st'.file = st.file) :
+    segFinish .c64 (segFinish .c64 g ss st) ss st' = segFinish .c64 g ss st := by
+  unfold segFinish
+  simp only [hm, hf, truncA]
+  by_cases h : lseg_memsz_lt g.memsz st.mem = true
+  · simp only [h, if_true]
+    have : lseg_memsz_lt st.mem st.mem = false := by simp [lseg_memsz_lt, BitVec.ult]
+    simp only [this, Bool.false_eq_true, if_false]
+  · simp only [h, if_false, Bool.false_eq_true]
+
+/-- the side conditions of one segment: its start is not 0 (unless it is the program-header segment
+    or was at offset 0 already), and no member meets the F13 trigger -/
+def SegOk (phoff : BitVec 64) (pe pn : BitVec 16) (lay : Layout) (g : Seg) : Prop :=
+  ∀ p, segStartOf phoff pe pn lay g = .ok p →
+    (lseg_is_phdr g.stype (BitVec.ofNat 16 g.secs.length) = false → lseg_offset0 g.offsetSet g.offset = false →
+      p.2.1 ≠ 0) ∧
+    LoopOk .c64 g p.2.1 g.secs { lay := p.1, mem := p.2.2.1, file := p.2.2.2 }
+
+/-- **one segment, in step**: laying out the finished segment `d` again, on the final sections,
+    from the same cursor, reproduces `d` and the same cursor -/
+theorem layoutSegment_resave {F : List SecBuf} {phoff : BitVec 64} {pe pn : BitVec 16}
+    {lay1 lay1E lay2 lay2E : Layout} {g d d2 : Seg}
+    (h1 : layoutSegment .c64 phoff pe pn lay1 g = .ok (some (lay1E, d))) (hF : FutL F lay1E)
+    (hok : SegOk phoff pe pn lay1 g) (hl : LockL F lay1 lay2)
+    (h2 : layoutSegment .c64 phoff pe pn lay2 d = .ok (some (lay2E, d2))) :
+    LockL F lay1E lay2E ∧ d2 = d := by
+  obtain ⟨p1, stE, s1, w1, rfl, rfl⟩ := layoutSegment_ok h1
+  obtain ⟨p2', st2E, s2, w2, rfl, rfl⟩ := layoutSegment_ok h2
+  obtain ⟨f1, f2, f3, f4, f5, f6, _⟩ := segFinish_fields .c64 g p1.2.1 stE
+  obtain ⟨e1, e2⟩ := segStartOf_secs s1
+  -- the entry layout: generated sections are final
+  have hFst : Fut F { lay := p1.1, mem := p1.2.2.1, file := p1.2.2.2 } := Fut.back g.secs w1 hF
+  have hF1 : FutL F lay1 := by
+    obtain ⟨a, b⟩ := hFst
+    simp only [e1, e2] at a b
+    exact ⟨a, b⟩
+  obtain ⟨hnz, hloop⟩ := hok p1 s1
+  obtain ⟨p2, s2', ep, lk⟩ := segStartOf_resave hl hF1 s1 f1 f2 f3 f4 f5 f6 hnz
+  rw [s2'] at s2
+  simp only [Except.ok.injEq] at s2
+  subst s2
+  have hss : p2.2.1 = p1.2.1 := by rw [ep]
+  have hm : p2.2.2.1 = p1.2.2.1 := by rw [ep]
+  have hf : p2.2.2.2 = p1.2.2.2 := by rw [ep]
+  rw [f2, hss, hm, hf] at w2
+  have hlock := wsdLoop_resave (g := g) (g' := segFinish .c64 g p1.2.1 stE) f4 f1 g.secs w1 hF hloop
+    (st2 := { lay := p2.1, mem := p1.2.2.1, file := p1.2.2.2 }) ⟨lk.secs, lk.pos, lk.gen, rfl, rfl⟩ w2
+  refine ⟨⟨hlock.secs, hlock.pos, hlock.gen⟩, ?_⟩
+  rw [hss]
+  exact segFinish_idem g p1.2.1 stE st2E hlock.mem hlock.file
+
+theorem layoutSegment_stable {c : Cls} {phoff : BitVec 64} {pe pn : BitVec 16} {lay lay' : Layout} {g g' : Seg}
+    (h : layoutSegment c phoff pe pn lay g = .ok (some (lay', g'))) (i : Nat) (hg : lay.gen[i]? = some true) :
+    lay'.secs[i]? = lay.secs[i]? ∧ lay'.gen[i]? = some true := by
+  obtain ⟨p, st, s1, w1, rfl, rfl⟩ := layoutSegment_ok h
+  obtain ⟨e1, e2⟩ := segStartOf_secs s1
+  have := wsdLoop_stable g.secs w1 i (by simp only [e2]; exact hg)
+  simp only [e1] at this
+  exact this
+
+theorem SegRun.stable {c : Cls} {e : Enc} {h0 : Bytes} {lay layE : Layout} {ordered ds : List Seg}
+    (run : SegRun c e h0 lay ordered layE ds) (i : Nat) (hg : lay.gen[i]? = some true) :
+    layE.secs[i]? = lay.secs[i]? ∧ layE.gen[i]? = some true := by
+  induction run with
+  | nil => exact ⟨rfl, hg⟩
+  | cons h1 _ ih =>
+    obtain ⟨a1, a2⟩ := layoutSegment_stable h1 i hg
+    obtain ⟨b1, b2⟩ := ih a2
+    exact ⟨b1.trans a1, b2⟩
+
+theorem FutL.back {c : Cls} {e : Enc} {h0 : Bytes} {F : List SecBuf} {lay layE : Layout} {ordered ds : List Seg}
+    (run : SegRun c e h0 lay ordered layE ds) (hF : FutL F layE) : FutL F lay := by
+  refine ⟨hF.1.trans run.frame.1.1, fun i hi => ?_⟩
+  obtain ⟨a, b⟩ := SegRun.stable run i hi
+  rw [hF.2 i b, a]
+
+/-- the side conditions along the whole segment loop -/
+def RunOk (e : Enc) (h0 : Bytes) : Layout → List Seg → Prop
+  | _, [] => True
+  | lay, g :: rest =>
+    SegOk (Hdr.e_phoff .c64 e h0) (Hdr.e_phentsize .c64 e h0) (Hdr.e_phnum .c64 e h0) lay g ∧
+    ∀ lay' d, layoutSegment .c64 (Hdr.e_phoff .c64 e h0) (Hdr.e_phentsize .c64 e h0) (Hdr.e_phnum .c64 e h0) lay g =
+      .ok (some (lay', d)) → RunOk e h0 lay' rest
+
+/-- **the whole segment loop, in step**: running it again over the finished segments, on the final
+    sections, from the initial cursor, reproduces the finished segments and the final cursor -/
+theorem segRun_resave {e : Enc} {h0 : Bytes} {F : List SecBuf} {lay1 lay1E lay2 lay2E : Layout}
+    {ordered ds acc done2 : List Seg}
+    (run : SegRun .c64 e h0 lay1 ordered lay1E ds) (hF : FutL F lay1E) (hok : RunOk e h0 lay1 ordered)
+    (hl : LockL F lay1 lay2)
+    (h2 : ds.foldlM (saveStep .c64 e h0) (some (lay2, acc)) = .ok (some (lay2E, done2))) :
+    LockL F lay1E lay2E ∧ done2 = acc ++ ds := by
+  induction run generalizing lay2 acc with
+  | nil lay =>
+    simp only [List.foldlM_nil, pure, Except.pure, Except.ok.injEq, Option.some.injEq, Prod.mk.injEq] at h2
+    obtain ⟨rfl, rfl⟩ := h2
+    exact ⟨hl, by simp⟩
+  | @cons layA layB layC g d rest ds' h1 run' ih =>
+    simp only [List.foldlM_cons, saveStep, bind, Except.bind] at h2
+    cases e2 : layoutSegment .c64 (Hdr.e_phoff .c64 e h0) (Hdr.e_phentsize .c64 e h0) (Hdr.e_phnum .c64 e h0) lay2 d with
+    | error x => rw [e2] at h2; cases h2
+    | ok r2 =>
+      rw [e2] at h2
+      cases r2 with
+      | none =>
+        simp only [pure, Except.pure] at h2
+        rw [saveFold_none] at h2; cases h2
+      | some p2 =>
+        obtain ⟨layB2, d2⟩ := p2
+        simp only [pure, Except.pure] at h2
+        have hFB : FutL F layB := FutL.back run' hF
+        obtain ⟨lk, ed⟩ := layoutSegment_resave h1 hFB hok.1 hl e2
+        subst ed
+        obtain ⟨lkE, edone⟩ := ih hF (hok.2 _ _ h1) lk h2
+        exact ⟨lkE, by rw [edone]; simp⟩
 
 end ElfioVerif.C06
